@@ -19,13 +19,19 @@ type zzStreamState struct {
 	ops    []string
 }
 
+// what the server will have written on the next stream the client opens, and
+// how many bytes one Read hands out at most (0: everything available)
+var zzNextStreamIn []byte
+var zzStreamChunk int
+
 var zzStreams = map[*quic.Stream]*zzStreamState{}
 var zzStreamList []*quic.Stream
 
 func zzStream(s *quic.Stream) *zzStreamState {
 	st, ok := zzStreams[s]
 	if !ok {
-		st = &zzStreamState{}
+		st = &zzStreamState{in: zzNextStreamIn}
+		zzNextStreamIn = nil
 		zzStreams[s] = st
 		zzStreamList = append(zzStreamList, s)
 	}
@@ -41,6 +47,9 @@ func zzModelStreamRead(s *quic.Stream, p []byte) (int, error) {
 	st.ops = append(st.ops, "read")
 	if len(st.in) == 0 {
 		return 0, errors.New("stream reset")
+	}
+	if zzStreamChunk > 0 && len(p) > zzStreamChunk {
+		p = p[:zzStreamChunk]
 	}
 	n := copy(p, st.in)
 	st.in = st.in[n:]
